@@ -563,6 +563,22 @@ impl Check for C10 {
                 } else {
                     rep.class("rejected-semantic");
                 }
+                // a semantic VALUE (built through the enum, e.g. what lift() returns) prints to a
+                // string that parses back to it: n-ary or / and, thresholds with constants
+                if let Some(sv) = crate::checks::c18::to_semantic(&p) {
+                    for (how, v) in [("as-built", sv.clone()), ("normalized", sv.clone().normalized()), ("sorted", sv.sorted())] {
+                        let printed = v.to_string();
+                        match Semantic::<String>::from_str(&printed) {
+                            Ok(back) => {
+                                if MPol::from_semantic(&back) != MPol::from_semantic(&v) {
+                                    return fail("print-parse-differs/semantic-value", format!("semantic policy ({}) prints as `{}` which parses to `{}`", how, printed, back));
+                                }
+                                rep.class("semantic-value-roundtrip");
+                            }
+                            Err(e) => return fail("print-unparseable/semantic-value", format!("semantic policy ({}) prints as `{}` which does not parse: {}", how, printed, e)),
+                        }
+                    }
+                }
                 Ok(())
             }
             "wallet" => {
